@@ -845,6 +845,8 @@ def run(chk):
     chk.guard(gens.apply, chk, "C10-R8", {"series"}, 5, "a generator of periods or variants consumed twice leaves later variants / later passes without data")
     from .. import unused as _unused
     chk.guard(_unused.apply, chk, "C10-R91")
+    from . import c14 as _c14
+    chk.guard(_c14.rule_r5, chk, rid="C10-R12")
     from .. import recon as _recon
     chk.guard(_recon.apply, chk, "C10-R11", {"dates", "series", "databoxes"})
     from .. import endpoints as _endpoints
